@@ -46,7 +46,7 @@ type c17Stub struct {
 type c17FailReader struct{}
 
 func (c17FailReader) Read([]byte) (int, error) { return 0, errors.New("stub: body read failed") }
-func (c17FailReader) Close() error               { return nil }
+func (c17FailReader) Close() error             { return nil }
 
 var errC17Transport = errors.New("stub: transport failed")
 
